@@ -78,6 +78,55 @@ theorem working_file_path_same_dir (a c : Rs.Str) (hc : '/' ∉ c) (h1 : c ≠ [
   rw [working_file_path_eq _ ⟨by rw [hl]; exact h1, by rw [hl]; exact h2⟩]
   simp
 
+/-- the working file's own name is a proper file name again (so every theorem above applies to it: a leftover working file that a
+    later run meets as a destination entry has a working file of its own, different from it) -/
+theorem working_file_path_proper (p : Rs.Path) (hp : ProperName p) : ProperName (working_file_path p) := by
+  rw [working_file_path_eq p hp]
+  obtain ⟨h1, h2⟩ := hp
+  rcases last_slash p with hn | ⟨a, c, rfl, hc⟩
+  · have hn' : '/' ∉ p ++ sfx := by simp [sfx, hn]
+    have hs := SyModel.Lemmas.PathText.splitLastAt_none (p ++ sfx) hn'
+    have hl : Rs.lastComponent (p ++ sfx) = p ++ sfx := by simp [Rs.lastComponent, hs]
+    unfold ProperName
+    rw [hl]
+    refine ⟨by simp [sfx], fun h => ?_⟩
+    have := congrArg List.length h
+    simp [sfx] at this
+  · have hc' : '/' ∉ c ++ sfx := by simp [sfx, hc]
+    have hs := SyModel.Lemmas.PathText.splitLastAt_last a (c ++ sfx) hc'
+    have hl : Rs.lastComponent (a ++ '/' :: (c ++ sfx)) = c ++ sfx := by simp [Rs.lastComponent, hs]
+    have e : (a ++ '/' :: c) ++ sfx = a ++ '/' :: (c ++ sfx) := by simp
+    rw [e]
+    unfold ProperName
+    rw [hl]
+    refine ⟨by simp [sfx], fun h => ?_⟩
+    have := congrArg List.length h
+    simp [sfx] at this
+
+/-- **the working file is never above or below its destination**: neither text is the other followed by `/…`.  This is the
+    structural fact behind the repair d5ee1fe's frame — a working file can occupy the name of a stale DIRECTORY only when that
+    directory is a sibling bearing the working-file name, never an ancestor of the file being updated -/
+theorem working_file_path_not_below (p : Rs.Path) (hp : ProperName p) (r : Rs.Str) :
+    working_file_path p ≠ p ++ '/' :: r := by
+  rw [working_file_path_eq p hp]
+  intro h
+  have := List.append_cancel_left h
+  simp [sfx] at this
+
+theorem working_file_path_not_above (p : Rs.Path) (hp : ProperName p) (r : Rs.Str) :
+    p ≠ working_file_path p ++ '/' :: r := by
+  rw [working_file_path_eq p hp]
+  intro h
+  have := congrArg List.length h
+  simp [sfx] at this
+
+/-- the residual collision, exactly: the working file of `p` is the destination `q` iff `q` bears `p`'s name with the suffix (the
+    recorded finding `C05/user-file-named-like-temp`; nothing else collides) -/
+theorem working_file_path_hits_iff (p q : Rs.Path) (hp : ProperName p) : working_file_path p = q ↔ q = p ++ sfx := by
+  rw [working_file_path_eq p hp]; exact eq_comm
+
+example : ProperName (working_file_path ['d', '/', 'a']) := working_file_path_proper _ ⟨by decide, by decide⟩
+
 /-- **the instance definition of the LocalCopy world is the translated function** (on proper names): what `GenLocalCopy` /
     `GenLocalCopy2` prove about the working file `dst ++ TEMP_SUFFIX` is about the name the code computes -/
 theorem posix_working_file_is_translated (cfg : SyModel.LocalCopy.Cfg) (p : Rs.Path) (h : ProperName p) :
